@@ -224,8 +224,24 @@ func c01Property(t *rapid.T, rec *evid.Rec, st *stack.Stack, sc stackCase, maxSt
 				fail(i, c, "malformed request to L1: "+bad[0])
 			}
 		}
-		// final scan of the alphabet, one key at a time and all at once
+		// final scan of the alphabet: all keys at once in a drawn order (whatever mix
+		// of tiers holds them by now), then one key at a time
 		now := nowUnix()
+		{
+			c := wire.Cmd{Kind: wire.Get, Keys: rapid.Permutation(keys).Draw(t, "finalOrder")}
+			if sc.Binary {
+				c.NoopEnd = rapid.Bool().Draw(t, "finalNoopEnd") // quiet gets closed by a no-op, or by a plain get of the last key
+				c.Opaque = 0x5c000000
+			}
+			exp := model.Apply(c, now)
+			got, err := ses.client(0).Do(c)
+			if err != nil {
+				undecidedOrHang(t, rec, st, ses.client(0), err, fmt.Sprintf("C01 %s final scan: %v", sc, err))
+			}
+			if msg := compare(c, sc.Binary, exp, got); msg != "" {
+				fail(n, c, "final scan, all keys in one request: "+msg)
+			}
+		}
 		for _, k := range keys {
 			c := wire.Cmd{Kind: wire.Get, Keys: []string{k}}
 			exp := model.Apply(c, now)
